@@ -219,9 +219,11 @@ def types_for(tier):
 
 # fixed descriptors on which the unchanged tree is known to violate C02 / C07 (near-breakdown handling with absolute thresholds)
 FIXED_BREAKDOWN = {
-    "C02": ["cls=gen;ty=d;n=11;nev=1;ncv=8;seed=764675;hist=N,V1,C0;sv1=rnd;args0=1:20:-10:5;meas=1;ref=0;lgs=0;fam=lowrank;rank=1"],
+    "C02": ["cls=gen;ty=d;n=11;nev=1;ncv=8;seed=764675;hist=N,V1,C0;sv1=rnd;args0=1:20:-10:5;meas=1;ref=0;lgs=0;fam=lowrank;rank=1",
+            "cls=genrs;ty=f;n=34;nev=5;ncv=18;seed=175185;hist=N,I,C0,C1;args0=4:80:-3:1;args1=1:4:-4:6;sv1=rnd2;sv2=rnd2;meas=1;ref=1;fam=presc;ncp=12;sigma=-1.63"],
     "C07": ["cls=gen;ty=l;n=20;nev=1;ncv=8;seed=733566;hist=N,V1,C0;sv1=rnd;args0=0:20:-6:1;meas=2;ref=0;lgs=0;fam=lowrank;rank=1",
-            "cls=sym;ty=f;n=15;nev=1;ncv=9;seed=719364;hist=N,V1,C0;sv1=e1;args0=3:20:-3:7;meas=2;ref=0;lgs=-20;fam=diag;spec=lin"],
+            "cls=sym;ty=f;n=15;nev=1;ncv=9;seed=719364;hist=N,V1,C0;sv1=e1;args0=3:20:-3:7;meas=2;ref=0;lgs=-20;fam=diag;spec=lin",
+            "cls=gencs;ty=d;n=69;nev=3;ncv=8;seed=588826;hist=N,I,C0;args0=6:80:-12:6;args1=0:80:-3:0;sv1=rnd2;sv2=rnd;meas=2;ref=0;fam=presc;ncp=34;sigma=2.45;sigmai=0.3"],
 }
 
 
@@ -289,7 +291,7 @@ def check_C07(tier, seed, t0):
 
 C13_RULES = ["I:WorkBound", "I:KInRange", "I:ShiftInRange", "I:RestartsBounded", "G:ShiftBegin", "G:Shift", "G:NevAdj", "G:CompressH", "G:CompressV",
              "G:RestartBegin", "G:FacBegin", "G:FacStep", "AllFinite", "OpArgsValid", "Abort", "UndocumentedException", "StatusDocumented",
-             "Hang", "FacFinite", "ExpandBasisFailed", "EndedMidCall", "HeapOverrun"]
+             "Hang", "FacFinite", "EndedMidCall", "HeapOverrun"]
 
 
 def check_C13(tier, seed, t0):
